@@ -291,6 +291,42 @@ def setParameters (env : Env) (c : Component) (p : Params) (user : List (String 
 def afterSequence (env : Env) (c : Component) (users : List (List (String × Value))) : Params :=
   users.foldl (setParameters env c) (createDefaults c.specs)
 
+/-- The catchment model's `Initialise` appends a message to the parameter errors when its data set does
+not load (`Model.Initialise`: `m.parameters.AddValidationErrorMessage(loadError.Error())`) — the only
+place outside `SetParameters` that touches a `Parameters`.  Whether and how often that happens is an
+oracle (the file system and the data set), supplied by the harness as a count; the map is untouched. -/
+def lateMessages (p : Params) (n : Nat) : Params :=
+  (List.range n).foldl (fun q _ => q.addMessage "reported-at-initialise") p
+
+/-! ## fan-out: one user map handed down a chain of components
+
+`SimpleAnnealer.SetParameters(m)` assigns its own table and calls `explorer.SetParameters(m)`, which
+assigns its own table and calls `coolant.SetParameters(m)` / `WithParameters(m)`: every component of
+the chain is handed the SAME user map and keeps its own `Parameters` (own table, own map, own error
+list).  `ParameterErrors()` of a component merges its own errors with those of the components below
+it.  The `SetParameters()` result must say the same (property C18 names it as an observation point);
+that it did not on the code as found (it returned the component's own errors only, two coolants always
+`nil`) is finding "SetParameters omits nested errors". -/
+
+/-- one component of a chain, with the oracles it sees -/
+structure Part where
+  env : Env
+  comp : Component
+  p : Params
+
+def Part.set (pt : Part) (user : List (String × Value)) : Part :=
+  { pt with p := setParameters pt.env pt.comp pt.p user }
+
+/-- `SetParameters(user)` on the head of a chain: every part gets the same user map -/
+def fanOut (parts : List Part) (user : List (String × Value)) : List Part :=
+  parts.map (·.set user)
+
+/-- the error lists `ParameterErrors()` merges -/
+def mergedErrors (parts : List Part) : List Err := parts.flatMap (·.p.errors)
+
+/-- `ParameterErrors() != nil` — and what the `SetParameters()` result has to agree with -/
+def reportsErrors (parts : List Part) : Bool := !(mergedErrors parts).isEmpty
+
 /-! ## decidable hypotheses evaluated by the driver on the tables extracted from Go -/
 
 def nodupKeys : List String → Bool
